@@ -8,7 +8,9 @@
                          feature set [F] — [q] ranges over every place validator, executor and
                          introspection look something up in a schema (the three views);
       [erase S F]        S with every type, field, implementation link, membership and root type
-                         whose requirements are not within F physically deleted;
+                         whose requirements are not within F deleted from the registry;
+      [erase_physical S F]  the same, and every type schema.New would then no longer reach from
+                         the directives, root types and AdditionalTypes unregistered;
       [visible S F h]    type h is registered and its requirements are within F;
       [handle_args q]    the type pointers lookup q is applied to; [handles_of q a] the type
                          pointers answer a hands to the consumer;
@@ -35,6 +37,9 @@
         transcribed validator and executor — *partial*: transcribed for chain documents (one
         selection per selection set) only; the complete validator / executor models belong to
         C04 / C01 and would be instantiated through [C13_noninterference];
+      - [C13_noninterference_physical] / [C13_orphaned_type_refuted]: the same for erasure followed
+        by schema.New's own registration, under the exclusion of the known finding
+        orphaned-type-stays-visible, and the witness that it fails without the exclusion;
       - [C13_erase_schema_ok]: the reduced schema is itself one that schema.New accepts;
       - [C13_enabling_shows_everything]: with every feature enabled nothing is deleted. *)
 From Coq Require Import String List.
@@ -123,6 +128,27 @@ Theorem C13_enabling_shows_everything : forall S G,
   schema_ok S = true -> subset (all_features S) G = true -> erase S G = S.
 Proof. exact erase_all. Qed.
 
+(** ** erasure as a developer performs it: delete the gated elements from the SchemaDefinition and
+    call schema.New again, which registers only what it still reaches ([erase_physical]).
+    Known finding [orphaned-type-stays-visible]: a type that itself needs no feature but is
+    referred to only by gated elements (the PageInfo type of a single gated apifu.Connection) stays
+    listed and resolvable by name for requests without the feature, while the physically reduced
+    definition does not contain it.  The property holds for physical erasure under the explicit
+    exclusion of that situation, and is refuted without it. *)
+Theorem C13_noninterference_physical : forall (A : Type) (p : prog A) S F G,
+  schema_ok S = true -> subset F G = true -> excl_orphaned_type S F = false ->
+  run fixed S F [] p = run fixed (erase_physical S F) G [] p.
+Proof. exact @noninterference_physical. Qed.
+
+Theorem C13_orphaned_type_refuted :
+  schema_ok W_orphan = true /\ excl_orphaned_type W_orphan [] = true /\
+  map fst (types (erase W_orphan [])) = [nm "Int"; nm "T"; nm "Query"] /\
+  map fst (types (erase_physical W_orphan [])) = [nm "Int"; nm "Query"] /\
+  ask fixed W_orphan [] QIntroTypes <> ask fixed (erase_physical W_orphan []) [fa] QIntroTypes /\
+  ask fixed W_orphan [] (QIntroType (nm "T")) <> ask fixed (erase_physical W_orphan []) [fa] (QIntroType (nm "T")) /\
+  ask fixed W_orphan [] (QNamedV (nm "T")) <> ask fixed (erase_physical W_orphan []) [fa] (QNamedV (nm "T")).
+Proof. exact orphan_refuted. Qed.
+
 (** ** the pinned tree violated the property at each of the repaired places (witnesses replayed
     against the real code by the harness's witness cases) *)
 
@@ -187,6 +213,8 @@ Print Assumptions C13_feature_validate_eq_partial.
 Print Assumptions C13_feature_exec_eq_partial.
 Print Assumptions C13_erase_schema_ok.
 Print Assumptions C13_enabling_shows_everything.
+Print Assumptions C13_noninterference_physical.
+Print Assumptions C13_orphaned_type_refuted.
 Print Assumptions C13_introspection_refuted_before_fix.
 Print Assumptions C13_spread_refuted_before_fix.
 Print Assumptions C13_resolution_refuted_before_fix.
